@@ -38,9 +38,11 @@ RULE = ("col seam: random categorical dimensions (1-6 elements, 0-3 subtotals) x
         "(ties, NaN, +-inf, negative, fractions; labels incl. case/empty) x fixed top/bottom id lists (repeats, "
         "overlap, stale) x hidden/prune/empties x direction; plus the enumerated scope (thorough: every top list "
         "and bottom list of length <=2 over ids+stale x every hidden subset x both directions x value patterns "
-        "on <=4 elements and <=2 subtotals; quick: a subsample). api seam: cat/MR rows x cat/MR columns and "
-        "strands with every supported measure / marginal keyword, unknown element / insertion ids, unknown and "
-        "absent measures. non-trivial = >=2 displayed entries and (two distinct non-NaN sort values or a fixed "
+        "on <=4 elements and <=2 subtotals; quick: a subsample). api seam: cat/MR rows x cat/MR columns, a "
+        "categorical array in both renderings (CA_SUBVAR x CA_CAT, CA_CAT x CA_SUBVAR) and strands, with every "
+        "supported measure / marginal keyword, opposing_element and opposing_insertion keys naming a category, a "
+        "subtotal or a sub-variable of array columns (alias / element id / sub-variable id spellings), unknown "
+        "element / insertion ids, unknown and absent measures. non-trivial = >=2 displayed entries and (two distinct non-NaN sort values or a fixed "
         "id or a NaN); distinct = distinct (seam, collation, keyword, order, direction) key")
 ASSUMPTIONS = [
     "element ids of a dimension are pairwise distinct; one sort value per valid element",
@@ -179,26 +181,68 @@ def _rand_ins_simple(rng, ids, n, diff=True):
     return out
 
 
-def _ids_of(var):
-    if var.kind == "mr":
-        return [it["alias"] for it in var.items]
-    return [c["id"] for c in var.cats if not c["missing"]]
+class _AD:
+    """one apparent dimension of the cube: kind cat | mr | casub | cacat."""
+
+    def __init__(self, kind, var):
+        self.kind = kind
+        self.var = var
+        self.is_arr = kind in ("mr", "casub")            # element ids are sub-variable aliases
+        if self.is_arr:
+            self.ids = [it["alias"] for it in var.items]
+            self.elems = [{"id": it["alias"], "name": it["name"]} for it in var.items]
+        else:
+            self.ids = [c["id"] for c in var.cats if not c["missing"]]
+            self.elems = [{"id": c["id"], "missing": c["missing"], "name": c["name"]} for c in var.cats]
+
+    def arr_index(self, spelled):
+        """offset of the sub-variable a key id names (alias, element id or sub-variable id), else None."""
+        for k, it in enumerate(self.var.items):
+            if spelled == it["alias"] or (isinstance(spelled, int) and not isinstance(spelled, bool)
+                                          and spelled == it["id"]) or spelled == it["subvar_id"]:
+                return k
+        return None
+
+
+def _adims(vars_):
+    out = []
+    for v in vars_:
+        if v.kind == "mr":
+            out.append(_AD("mr", v))
+        elif v.kind == "ca":
+            pair = [_AD("casub", v), _AD("cacat", v)]
+            out.extend(pair[::-1] if v.ca_transposed else pair)
+        else:
+            out.append(_AD("cat", v))
+    return out
+
+
+def _ids_of(ad):
+    return ad.ids
 
 
 def _gen_api(rng):
     nd = rng.choice([1, 2, 2, 2])
-    kinds = [rng.choice(["cat", "cat", "cat", "mr"]) for _ in range(nd)]
-    vars_ = [gen.gen_var(rng, k, "v%d" % i, n=rng.randint(1, 5), numeric="all" if rng.random() < 0.5 else "some")
-             for i, k in enumerate(kinds)]
+    if nd == 2 and rng.random() < 0.22:
+        # one categorical-array variable: CA_SUBVAR x CA_CAT, or category-first CA_CAT x CA_SUBVAR
+        v = gen.gen_var(rng, "ca", "v0", n=rng.randint(1, 4), ncat=rng.randint(2, 5),
+                        numeric="all" if rng.random() < 0.5 else "some")
+        v.ca_transposed = rng.random() < 0.65
+        vars_ = [v]
+    else:
+        kinds = [rng.choice(["cat", "cat", "cat", "mr"]) for _ in range(nd)]
+        vars_ = [gen.gen_var(rng, k, "v%d" % i, n=rng.randint(1, 5), numeric="all" if rng.random() < 0.5 else "some")
+                 for i, k in enumerate(kinds)]
+    ads = _adims(vars_)
     survey = gen.survey_to_json(gen.gen_survey(rng, vars_, n_resp=rng.choice([0, 4, 12, 30, 30]), weighted=rng.random() < 0.5))
     axis = 0 if nd == 1 else rng.choice([0, 0, 1])
     extra = [m for m in ("mean", "sum", "stddev") if rng.random() < 0.3]
-    sv, ov = vars_[axis], (vars_[1 - axis] if nd == 2 else None)
+    sv, ov = ads[axis], (ads[1 - axis] if nd == 2 else None)
     sids = _ids_of(sv)
     dims = []
-    for a, v in enumerate(vars_):
+    for a, v in enumerate(ads):
         d = {"view": None, "insertions": None, "hide": [], "prune": False, "order": None}
-        if v.kind != "mr":
+        if not v.is_arr:
             vi = _ids_of(v)
             if vi and rng.random() < 0.75:
                 d["insertions"] = _rand_ins_simple(rng, vi, rng.randint(1, 3))
@@ -207,7 +251,7 @@ def _gen_api(rng):
         d["prune"] = rng.random() < 0.3
         dims.append(d)
     # the order transform of the sorted axis
-    stale = (max([i for i in sids if isinstance(i, int)] + [0]) + 7) if sv.kind != "mr" else "zz9"
+    stale = (max([i for i in sids if isinstance(i, int)] + [0]) + 7) if not sv.is_arr else "zz9"
     pool = sids + [stale]
     fixed = {}
     if rng.random() < 0.5:
@@ -231,14 +275,27 @@ def _gen_api(rng):
     else:
         oids = _ids_of(ov)
         types = ["opposing_element"] * 4 + ["label"] + (["marginal"] * 3 if axis == 0 else [])
-        if ov.kind != "mr" and dims[1 - axis]["insertions"]:
+        if not ov.is_arr and dims[1 - axis]["insertions"]:
             types += ["opposing_insertion"] * 4
+        if ov.is_arr and axis == 0:
+            # rows sorted by a "derived column": insertion_id names a sub-variable of the array columns
+            types += ["opposing_insertion"] * 6
         t = rng.choice(types)
         order["type"] = t
+
+        def spell(ad):
+            it = rng.choice(ad.var.items)
+            return rng.choice([it["alias"], it["alias"], it["id"], it["subvar_id"]])
         if t == "opposing_element":
-            ostale = (max([i for i in oids if isinstance(i, int)] + [0]) + 7) if ov.kind != "mr" else "zz9"
-            order["element_id"] = rng.choice(oids + oids + oids + [ostale]) if oids else ostale
+            ostale = (max([i for i in oids if isinstance(i, int)] + [0]) + 7) if not ov.is_arr else "zz9"
+            if ov.is_arr:
+                order["element_id"] = spell(ov) if rng.random() < 0.85 else ostale
+            else:
+                order["element_id"] = rng.choice(oids + oids + oids + [ostale]) if oids else ostale
             order["measure"] = rng.choice(list(MATRIX_PUBLIC) + ["foo"])
+        elif t == "opposing_insertion" and ov.is_arr:
+            order["insertion_id"] = spell(ov) if rng.random() < 0.85 else "zz9"
+            order["measure"] = rng.choice(list(MATRIX_PUBLIC))
         elif t == "opposing_insertion":
             iids = [i["id"] for i in dims[1 - axis]["insertions"]]
             order["insertion_id"] = rng.choice(iids + iids + [99])
@@ -293,7 +350,7 @@ def _build(case, plain):
     resp = gen.cube_response(vars_, survey, True, extra_measures=_extra_measures(case, vars_))
     tkeys = ["rows_dimension", "columns_dimension"]
     transforms = {}
-    for v, dd, tk in zip(vars_, case["dims"], tkeys):
+    for dd, tk in zip(case["dims"], tkeys):
         d2 = dict(dd)
         if plain:
             d2 = dict(dd, hide=[], prune=False, order=None)
@@ -350,11 +407,17 @@ def _resolvable(case, vars_):
     need = NEEDS.get(kw)
     if need and need not in case["extra"]:
         return False                                   # measure not in the response
+    ads = _adims(vars_)
     if t == "opposing_element":
-        return order["element_id"] in _ids_of(vars_[1 - axis])
+        if ads[1 - axis].is_arr:
+            return ads[1 - axis].arr_index(order["element_id"]) is not None
+        return order["element_id"] in _ids_of(ads[1 - axis])
     if t == "opposing_insertion":
+        if ads[1 - axis].is_arr:
+            # rows only (`_SortRowsByDerivedColumnHelper`); columns have no such helper
+            return axis == 0 and ads[1 - axis].arr_index(order["insertion_id"]) is not None
         od = case["dims"][1 - axis]
-        valid = _ids_of(vars_[1 - axis])
+        valid = _ids_of(ads[1 - axis])
         return order["insertion_id"] in [i["id"] for i in (od.get("insertions") or []) if oc.ins_valid(i, valid)]
     return True
 
@@ -376,7 +439,8 @@ def _api_run(case):
             warnings.simplefilter("ignore")
             part = _build(case, False)
             twin = _build(case, True)
-            nd = len(vars_)
+            ads = _adims(vars_)
+            nd = len(ads)
             name = "row" if axis == 0 else "column"
             out["signed"] = oc.canon_order(common.call_impl(lambda: getattr(part, name + "_order")()))
             out["bogus"] = oc.canon_order(common.call_impl(lambda: getattr(part, name + "_order")(OF.BOGUS_IDS)))
@@ -390,7 +454,7 @@ def _api_run(case):
             # public values per element / subtotal of the sorted axis, from the twin partition
             prop, kw = _public_prop(case)
             order = case["dims"][axis]["order"]
-            sids = _ids_of(vars_[axis])
+            sids = _ids_of(ads[axis])
             out["vals"] = None
             if prop == "label":
                 labels = list(getattr(twin, "row_labels" if axis == 0 else "column_labels"))
@@ -427,8 +491,10 @@ def _api_run(case):
                 n = len(sids)
                 if nd == 2 and order["type"] != "marginal":
                     oord = [int(x) for x in getattr(twin, ("column" if axis == 0 else "row") + "_order")()]
-                    oids = _ids_of(vars_[1 - axis])
-                    if order["type"] == "opposing_element":
+                    oids = _ids_of(ads[1 - axis])
+                    if ads[1 - axis].is_arr:
+                        kpos = oord.index(ads[1 - axis].arr_index(order.get("element_id", order.get("insertion_id"))))
+                    elif order["type"] == "opposing_element":
                         kpos = oord.index(oids.index(order["element_id"]))
                     else:
                         od = case["dims"][1 - axis]
@@ -461,16 +527,14 @@ def _api_run(case):
 # lean ops
 
 
-def _api_elems(var):
-    if var.kind == "mr":
-        return [{"id": it["alias"], "name": it["name"]} for it in var.items]
-    return [{"id": c["id"], "missing": c["missing"], "name": c["name"]} for c in var.cats]
+def _api_elems(ad):
+    return ad.elems
 
 
 def _fixed(order, key, var):
     ids = (order.get("fixed") or {}).get(key) or []
-    if var is not None and var.kind == "mr":
-        aliases = [it["alias"] for it in var.items]
+    if var is not None and var.is_arr:
+        aliases = list(var.ids)
         return [i if i in aliases else None for i in ids]
     return list(ids)
 
@@ -503,10 +567,10 @@ def lean_ops(case):
     lib = _api_run(case)
     dd = case["dims"][axis]
     order = dd["order"]
-    v = vars_[axis]
+    v = _adims(vars_)[axis]
     elems = _api_elems(v)
     valid = [e for e in elems if not e.get("missing")]
-    d = oc.lean_dim(dd, valid, is_array=(v.kind == "mr"))
+    d = oc.lean_dim(dd, valid, is_array=v.is_arr)
     if any(u.is_array for u in vars_):
         emp = lib.get("row_empties" if axis == 0 else "col_empties", []) if "raises" not in lib else []
     else:
@@ -652,8 +716,12 @@ def _eval_api(case, louts, ctx):
     order = case["dims"][axis]["order"]
     t = order["type"]
     kw = order.get("measure", order.get("marginal"))
-    kinds = "x".join(v.kind for v in vars_)
-    where = "%s %s axis=%d %s/%s" % (kinds, "slice" if len(vars_) == 2 else "strand", axis, t, kw)
+    ads = _adims(vars_)
+    kinds = "x".join(a.kind for a in ads)
+    where = "%s %s axis=%d %s/%s" % (kinds, "slice" if len(ads) == 2 else "strand", axis, t, kw)
+    ctx.count("api:dims:%s" % kinds)
+    if t == "opposing_insertion" and len(ads) == 2 and ads[1 - axis].is_arr:
+        ctx.count("api:derived-column:%s" % ads[1 - axis].kind)
     ctx.count("api:%s:%s" % ("rows" if axis == 0 else "cols", t))
     if "raises" in lo:
         return findings, None
@@ -679,9 +747,9 @@ def _eval_api(case, louts, ctx):
             return findings, None
     # all opposing base vectors pruned -> insertions of this axis are dropped
     dropped = False
-    if len(vars_) == 2:
+    if len(ads) == 2:
         od = case["dims"][1 - axis]
-        n_opp = len(_ids_of(vars_[1 - axis]))
+        n_opp = len(_ids_of(ads[1 - axis]))
         if od.get("prune") and len(lib["col_empties" if axis == 0 else "row_empties"]) == n_opp:
             dropped = True
             ctx.count("api:subtotals-pruned")
@@ -699,7 +767,7 @@ def _eval_api(case, louts, ctx):
                                "every opposing vector is pruned" % (where, signed)))
         return findings, None
     has_diff = False
-    for a, u in enumerate(vars_):
+    for a, u in enumerate(ads):
         uids = _ids_of(u)
         has_diff = has_diff or any(oc.ins_valid(i, uids) and set(i.get("neg") or []) & set(uids)
                                    for i in (case["dims"][a].get("insertions") or []))
